@@ -536,3 +536,91 @@ func (it *Interp) termCompare(op string, a, b *fterm) (bool, bool) {
 	}
 	return false, false
 }
+
+// relation memory: what the path already assumed about a pair of terms.
+const (
+	relLT uint8 = 1
+	relEQ uint8 = 2
+	relGT uint8 = 4
+)
+
+func relKey(a, b *fterm) (string, bool) {
+	ka := a.N.String() + "/" + a.D.String()
+	kb := b.N.String() + "/" + b.D.String()
+	if ka <= kb {
+		return ka + "~" + kb, false
+	}
+	return kb + "~" + ka, true
+}
+
+func opMask(op string) uint8 {
+	switch op {
+	case "<":
+		return relLT
+	case "<=":
+		return relLT | relEQ
+	case ">":
+		return relGT
+	case ">=":
+		return relGT | relEQ
+	case "==":
+		return relEQ
+	case "!=":
+		return relLT | relGT
+	}
+	return relLT | relEQ | relGT
+}
+
+func flipMask(m uint8) uint8 {
+	r := m & relEQ
+	if m&relLT != 0 {
+		r |= relGT
+	}
+	if m&relGT != 0 {
+		r |= relLT
+	}
+	return r
+}
+
+// recordRel narrows the relation between the two terms of a fact.
+func (it *Interp) recordRel(s *State, f *floatFact) {
+	if f == nil || f.A == nil || f.B == nil {
+		return
+	}
+	m := opMask(f.Op)
+	if !f.Taken {
+		m = (relLT | relEQ | relGT) &^ m
+	}
+	key, swapped := relKey(f.A, f.B)
+	if swapped {
+		m = flipMask(m)
+	}
+	if s.rel == nil {
+		s.rel = map[string]uint8{}
+	}
+	old, ok := s.rel[key]
+	if !ok {
+		old = relLT | relEQ | relGT
+	}
+	s.rel[key] = old & m
+}
+
+// relDecide: is "a op b" decided by what the path already assumed?
+func relDecide(s *State, op string, a, b *fterm) (bool, bool) {
+	key, swapped := relKey(a, b)
+	have, ok := s.rel[key]
+	if !ok {
+		return false, false
+	}
+	if swapped {
+		have = flipMask(have)
+	}
+	want := opMask(op)
+	switch {
+	case have&^want == 0 && have != 0:
+		return true, true
+	case have&want == 0:
+		return false, true
+	}
+	return false, false
+}
